@@ -1,5 +1,5 @@
 import ParamVerif.Util.Proto
-import ParamVerif.Depends.Spec
+import ParamVerif.Depends.CascadeSpec
 import ParamVerif.Dispatch.Model
 open Lean ParamVerif ParamVerif.Proto ParamVerif.Depends
 
@@ -28,16 +28,34 @@ def parseKvs (j : Json) : Except String (List (String × Int)) := do
     let q ← p.getArr?
     return (← q[0]!.getStr?, ← q[1]!.getInt?)
 
-def parseSimple (j : Json) : Except String SimpleOp := do
+partial def parseBlk (j : Json) : Except String Blk := do
   match ← getStr j "op" with
   | "set" => return .set ⟨← getStr j "name", ← getStr j "what"⟩ (← getInt j "v")
   | "update" => return .update (← parseKvs (← j.getObjVal? "kvs"))
-  | o => throw s!"unknown simple op {o}"
+  | "batch" => return .batch (← (← getArr j "body").toList.mapM parseBlk)
+  | o => throw s!"unknown op {o}"
 
-def parseOp (j : Json) : Except String Op := do
-  match ← getStr j "op" with
-  | "batch" => return .batch (← (← getArr j "body").toList.mapM parseSimple)
-  | _ => return .simple (← parseSimple j)
+/-- trace nodes as the harness writes them: ["call", label, [..]] | ["asg", name, what, old, new, batch, [..]] |
+["block", kind, [..]] -/
+partial def parseT (j : Json) : Except String T := do
+  let q ← j.getArr?
+  match ← q[0]!.getStr? with
+  | "call" => return .call (← q[1]!.getStr?) (← (← q[2]!.getArr?).toList.mapM parseT)
+  | "asg" => return .asg ⟨← q[1]!.getStr?, ← q[2]!.getStr?⟩ (← q[3]!.getInt?) (← q[4]!.getInt?) (← q[5]!.getBool?)
+                (← (← q[6]!.getArr?).toList.mapM parseT)
+  | "block" => return .block (← q[1]!.getStr?) (← (← q[2]!.getArr?).toList.mapM parseT)
+  | o => throw s!"unknown trace node {o}"
+
+partial def jT (lbl : String → String) : T → Json
+  | .call m ch => Json.arr #[Json.str "call", Json.str (lbl m), Json.arr (ch.map (jT lbl)).toArray]
+  | .asg k o n b ch => Json.arr #[Json.str "asg", Json.str k.name, Json.str k.what, toJson o, toJson n, Json.bool b,
+      Json.arr (ch.map (jT lbl)).toArray]
+  | .block kind ch => Json.arr #[Json.str "block", Json.str kind, Json.arr (ch.map (jT lbl)).toArray]
+
+partial def bareT : T → T
+  | .call m ch => .call ((m.splitOn "@").headD m) (ch.map bareT)
+  | .asg k o n b ch => .asg k o n b (ch.map bareT)
+  | .block kind ch => .block kind (ch.map bareT)
 
 def errName : Err → String
   | .attribute => "AttributeError" | .recursion => "RecursionError" | .illFormed => "illFormed"
@@ -76,26 +94,30 @@ def keyIndex (keys : List Key) (k : Key) : Option Nat :=
   let i := keys.findIdx (fun x => x = k)
   if i < keys.length then some i else none
 
-def encSimple (keys : List Key) : SimpleOp → Option Dispatch.Stmt
+partial def encBlk (keys : List Key) : Blk → Option Dispatch.Stmt
   | .set k v => (keyIndex keys k).map (fun i => .set i v)
   | .update kvs => (kvs.mapM (fun kv => (keyIndex keys ⟨kv.1, "value"⟩).map (fun i => (i, kv.2)))).map .update
-
-def encOp (keys : List Key) : Op → Option Dispatch.Stmt
-  | .simple s => encSimple keys s
-  | .batch body => (body.mapM (encSimple keys)).map .batch
+  | .batch body => (body.mapM (encBlk keys)).map .batch
 
 /-- `some true/false`: comparable and (dis)agrees; `none`: outside what Dispatch.Model expresses
-(a watcher registered twice for one name, or watchers of different precedence on a slot) -/
-def dispatchAgrees (w0 : IWorld) (ops : List Op) (stepLogs : List (List String)) : Option Bool :=
+(a watcher registered twice for one name, or watchers of different precedence on a slot).  Every key
+(name, what) is a parameter of its own in the encoding; the bodies of assigning methods are callback programs. -/
+def dispatchAgrees (w0 : IWorld) (bodies : Bodies) (ops : List Blk) (stepLogs : List (List String)) : Option Bool :=
   let keys := w0.vals.map (·.1)
   let plain := w0.regs.all (fun x => x.params.eraseDups.length == x.params.length)
   if !plain then none else
+  let bodyIdx : String → Nat := fun m =>
+    let i := bodies.findIdx (fun b => b.1 = m)
+    if i < bodies.length then i + 1 else 0
   let regs : List Dispatch.Watcher := w0.regs.map fun x =>
     { id := x.id, params := x.params.filterMap (fun n => keyIndex keys ⟨n, x.what⟩), onlychanged := true,
-      queued := x.queued, precedence := x.precedence, body := 0, cb := x.id, uid := x.id }
-  let cfg : Dispatch.Cfg := { bounds := keys.map (fun _ => (none, none)), bodies := [[]] }
+      queued := x.queued, precedence := x.precedence, body := bodyIdx x.method, cb := x.id, uid := x.id }
+  match bodies.mapM (fun b => b.2.mapM (fun kv => (keyIndex keys ⟨kv.1, "value"⟩).map (fun i => Dispatch.Stmt.set i kv.2))) with
+  | none => none
+  | some progs =>
+  let cfg : Dispatch.Cfg := { bounds := keys.map (fun _ => (none, none)), bodies := [] :: progs }
   let dw0 : Dispatch.World := { vals := w0.vals.map (·.2), regs := regs, batch := false, trigger := false, events := [], queued := [] }
-  match ops.mapM (encOp keys) with
+  match ops.mapM (encBlk keys) with
   | none => none
   | some stmts =>
     let (_, revLogs) := stmts.foldl (fun (acc : Dispatch.World × List (List String)) s =>
@@ -114,12 +136,18 @@ def handle (req : Json) : Except String Json := do
   let vals ← (← getArr case "init").toList.mapM fun t => do
     let q ← t.getArr?
     return ((⟨← q[0]!.getStr?, ← q[1]!.getStr?⟩, ← q[2]!.getInt?) : Key × Int)
-  let ops ← (← getArr case "ops").toList.mapM parseOp
+  let ops ← (← getArr case "ops").toList.mapM parseBlk
   -- assignments made by on_init methods: [[method name, defining class, parameter, value]]
   let rawAssigns ← match getOpt case "assigns" with
     | some a => (← a.getArr?).toList.mapM fun x => do
         let q ← x.getArr?
         return (← q[0]!.getStr?, ← q[1]!.getNat?, ← q[2]!.getStr?, ← q[3]!.getInt?)
+    | none => pure []
+  -- assignments made by a method's body at every invocation: [[method name, defining class, [[parameter, value], …]]]
+  let rawBodies ← match getOpt case "bodies" with
+    | some a => (← a.getArr?).toList.mapM fun x => do
+        let q ← x.getArr?
+        return (← q[0]!.getStr?, ← q[1]!.getNat?, ← parseKvs q[2]!)
     | none => pure []
   let fuel := 64
   let optJ : Option String → Json := fun | some s => Json.str s | none => Json.null
@@ -138,12 +166,27 @@ def handle (req : Json) : Except String Json := do
       match resolveMethod h c n with
       | some (k', _) => if k' = k then some (n, (p, v)) else none
       | none => none
+    let bodies : Bodies := rawBodies.filterMap fun (n, k, kvs) =>
+      match resolveMethod h c n with
+      | some (k', _) => if k' = k then some (n, kvs) else none
+      | none => none
     let w0 := fns.foldl (fun w f => fnWatch w f.1 f.2) (instantiateA table vals assigns)
+    -- every operation through the cascade interpreter (trace); the flat ones of log-only methods through the
+    -- compact dispatcher of the theorems as well
+    let cfuel := 4000
+    let (_, revC) := ops.foldl (fun (acc : IWorld × List (Bool × List String × List T)) op =>
+        let w := { acc.1 with log := [] }
+        match runC bodies cfuel (.blk op) w with
+        | some (r, w', tr) => (w', (r, w'.log, tr) :: acc.2)
+        | none => (w, (false, ["<out of fuel>"], []) :: acc.2)) (w0, [])
+    let cSteps := revC.reverse
     let (_, revSteps) := ops.foldl (fun (acc : IWorld × List (Bool × List String)) op =>
         let w := { acc.1 with log := [] }
-        let (r, w') := runOp w op
+        let (r, w') := runOp w op.toOp
         (w', (r, w'.log) :: acc.2)) (w0, [])
-    let mSteps := revSteps.reverse
+    let compact := bodies.isEmpty
+    let mSteps := cSteps.map (fun (r, l, _) => (r, l))
+    let compactAgrees := !compact || revSteps.reverse == mSteps
     let mnames := (methodNames h c).toArray.qsort (· < ·) |>.toList
     let mdeps := mnames.map fun n =>
       Json.arr #[Json.str n, match methodDependencies h fuel c n with
@@ -155,22 +198,34 @@ def handle (req : Json) : Except String Json := do
           ("on_init", Json.bool e.onInit), ("deps", jDeps e.deps)]).toArray),
       ("mdeps", Json.arr mdeps.toArray),
       ("init", jStrs (w0.log.map (label h c))),
-      ("steps", Json.arr (mSteps.map fun (r, l) => Json.mkObj [("ok", Json.bool r), ("log", jStrs (l.map (label h c)))]).toArray)]
+      ("steps", Json.arr (cSteps.map fun (r, l, tr) => Json.mkObj [("ok", Json.bool r), ("log", jStrs (l.map (label h c))),
+          ("trace", Json.arr (tr.map (jT (label h c))).toArray)]).toArray)]
     let modelObs : Obs := { table := table.map (fun e => ⟨e.name, e.queued, e.onInit, e.deps⟩), init := w0.log,
                             steps := mSteps.map (fun (r, l) => ⟨r, l⟩) }
     let impl ← req.getObjVal? "impl"
     let applicable := wf && (getOpt impl "create").isNone
+    let flatOps := ops.map Blk.toOp
+    let ts := targets h fuel c fns
+    -- log-only methods: the count oracle on the (flattened) operations, then the trace oracle; assigning
+    -- methods: table and constructor by the count oracle, the operations by the trace oracle
+    let judge : Obs → List (Bool × List T) → Nat × Option String := fun o trs =>
+      match specAll h fuel c fns vals (if compact then flatOps else []) o assigns with
+      | (n, some r) => (n, some r)
+      | (n, none) => let (k, r) := specTraces ts 0 trs; (max n k, r)
     let (nImpl, sImpl) ← if applicable then (do
         let o ← parseObs impl
-        pure (specAll h fuel c fns vals ops o assigns)) else pure (0, none)
-    let (_, sModel0) := specAll h fuel c fns vals ops modelObs assigns
+        let trs ← (← getArr impl "steps").toList.mapM fun st => do
+          return (← getBool st "ok", (← (← getArr st "trace").toList.mapM parseT).map bareT)
+        pure (judge o trs)) else pure (0, none)
+    let (_, sModel0) := judge modelObs (cSteps.map fun (r, _, tr) => (r, tr))
     -- a case on which the oracle fails must still be reproduced exactly by the model (the model mirrors
     -- the code as written): otherwise report it as a new, unclassified violation
     let sImpl := if sImpl.isSome && !(impl == model) then some ("model differs from implementation on an oracle-failing case: " ++ sImpl.getD "") else sImpl
-    let agrees := dispatchAgrees w0 ops (mSteps.map (·.2))
+    let agrees := dispatchAgrees w0 bodies ops (mSteps.map (·.2))
     -- the specification may fail on the model exactly where it fails on the implementation (the model
     -- mirrors the code as written); a disagreement with Dispatch.Model.run is a model defect
-    let sModel := if agrees == some false then some "compact dispatcher disagrees with Dispatch.Model.run"
+    let sModel := if !compactAgrees then some "cascade interpreter disagrees with the compact dispatcher"
+                  else if agrees == some false then some "dispatcher disagrees with Dispatch.Model.run"
                   else if sImpl.isSome then none else sModel0
     let groupCounts := table.map (fun e => (groupsOf e.deps).length)
     let branches : List String :=
@@ -182,8 +237,11 @@ def handle (req : Json) : Except String Json := do
       (if table.any (·.onInit) then ["install:on_init"] else []) ++
       (if !fns.isEmpty then ["install:function-form"] else []) ++
       (if !assigns.isEmpty then ["init:assigning-on_init"] else []) ++
-      (ops.map fun | .simple (.set k _) => (if k.what = "value" then "op:set" else "op:setslot")
-                   | .simple (.update _) => "op:update" | .batch _ => "op:batch").eraseDups ++
+      (ops.map fun | .set k _ => (if k.what = "value" then "op:set" else "op:setslot")
+                   | .update _ => "op:update" | .batch _ => "op:batch").eraseDups ++
+      (if ops.any Blk.nested then ["op:nested-batch"] else []) ++
+      (if !bodies.isEmpty then ["method:assigning"] else []) ++
+      (if cSteps.any (fun (_, _, tr) => (T.allCallsL tr).length > (T.callsL tr).length) then ["cascade:nested-call"] else []) ++
       (if impl == model then ["json:model-equals-impl"] else ["json:model-differs"]) ++
       (match agrees with | some true => ["dispatch-model:agrees"] | some false => ["dispatch-model:DISAGREES"] | none => ["dispatch-model:not-comparable"])
     return Json.mkObj [("model", model), ("applicable", Json.bool applicable),
